@@ -132,6 +132,34 @@ Theorem C07_writes_conform_pairs : forall l, c_wf vec_pair_codec l ->
 Proof. exact FormatConform.conform_pairs. Qed.
 Print Assumptions C07_writes_conform_pairs.
 
+(* Vec<u8>: the padding the model writes is the document's 0..7 zero bytes *)
+Theorem C07_writes_conform_bytes : forall m l, c_wf (bytes_codec m) l ->
+  F.elems_of_bytes (c_enc (bytes_codec m) l) = Some (F.doc_encode_bytes l) /\
+  F.doc_valid_bytes (F.doc_encode_bytes l) = true /\ F.doc_content_bytes (F.doc_encode_bytes l) = Some l.
+Proof. exact FormatConform.conform_bytes. Qed.
+Print Assumptions C07_writes_conform_bytes.
+
+(* Option<V> around ANY type with an element-level serializer [ser] that the document's reader of V reads back;
+   instance below: Option<IntVector> *)
+Theorem C07_writes_conform_opt : forall (A B : Type) (c : codec A) (ser : A -> list N) (p : F.parser B) (content : A -> B) (o : option A),
+  (forall x, c_enc c x = flat_map Stream.le64 (ser x)) ->
+  (forall x, c_wf c x -> lenN (ser x) = c_size c x /\ F.file_ok (ser x) = true /\
+                         (forall rest, p (ser x ++ rest) = Some (content x, rest))) ->
+  c_wf (option_codec c) o ->
+  F.elems_of_bytes (c_enc (option_codec c) o) = Some (F.doc_encode_opt (option_map ser o)) /\
+  F.doc_valid_opt p (F.doc_encode_opt (option_map ser o)) = true /\
+  F.doc_content_opt p (F.doc_encode_opt (option_map ser o)) = Some (option_map content o).
+Proof. exact @FormatConform.conform_opt. Qed.
+Print Assumptions C07_writes_conform_opt.
+
+Theorem C07_writes_conform_opt_int : forall m (o : option intvec),
+  c_wf (option_codec (iv_codec m)) o -> (forall v, o = Some v -> iv_inv v) ->
+  F.elems_of_bytes (c_enc (option_codec (iv_codec m)) o) = Some (F.doc_encode_opt (option_map iv_serialize o)) /\
+  F.doc_valid_opt F.p_int (F.doc_encode_opt (option_map iv_serialize o)) = true /\
+  F.doc_content_opt F.p_int (F.doc_encode_opt (option_map iv_serialize o)) = Some (option_map abs_is o).
+Proof. exact FormatConform.conform_opt_int. Qed.
+Print Assumptions C07_writes_conform_opt_int.
+
 (* RawVector: raw_inv (exact word count, unused bits zero: maintained by every operation, Proofs/RawProof.v) *)
 Theorem C07_writes_conform_raw : forall m r, raw_ok r -> raw_inv r ->
   F.elems_of_bytes (c_enc (raw_codec m) r) = Some (raw_serialize r) /\
